@@ -78,8 +78,11 @@ def closure(structs, names):
     need = set()
 
     def visit(t):
-        if t[0] == "struct":
-            add(t[1])
+        if t[0] in ("struct", "emb"):
+            if t[1] in structs:
+                add(t[1])
+            for x in (t[2] if len(t) > 2 and isinstance(t[2], tuple) else ()):
+                visit(x)
         elif len(t) > 1 and isinstance(t[1], tuple):
             visit(t[1])
 
